@@ -1,5 +1,6 @@
 SPECIFICATION Spec
 CONSTANT MaxLen = 7
+CONSTANT Focus = "all"
 CONSTANT Bytes1 = {32, 10, 13, 35, 40, 41, 47, 42, 34, 92, 120, 66}
 VIEW View
 INVARIANT NoPanicInv
